@@ -469,6 +469,55 @@ pub(crate) struct DependentParameters<T> {
     unadapt: Unadapt<T>,
 }
 
+/// Verification hook, compiled only with `--cfg palette_verif`: lets a contract
+/// be stated on the viewing-condition dependent quantities (which are private)
+/// and lets the forward and inverse models be run with explicitly given ones.
+/// Order: d_rgb[0..3], d_rgb_inv[0..3], n, n_bb, n_c, n_cb, a_w, c, z, f_l_4,
+/// adapt.f_l, unadapt.constant, unadapt.exponent.
+#[cfg(palette_verif)]
+impl<T: Clone> DependentParameters<T> {
+    pub(crate) fn verif_fields(&self) -> [T; 17] {
+        [
+            self.d_rgb[0].clone(),
+            self.d_rgb[1].clone(),
+            self.d_rgb[2].clone(),
+            self.d_rgb_inv[0].clone(),
+            self.d_rgb_inv[1].clone(),
+            self.d_rgb_inv[2].clone(),
+            self.n.clone(),
+            self.n_bb.clone(),
+            self.n_c.clone(),
+            self.n_cb.clone(),
+            self.a_w.clone(),
+            self.c.clone(),
+            self.z.clone(),
+            self.f_l_4.clone(),
+            self.adapt.f_l.clone(),
+            self.unadapt.constant.clone(),
+            self.unadapt.exponent.clone(),
+        ]
+    }
+
+    pub(crate) fn verif_from_fields(f: [T; 17]) -> Self {
+        let [d0, d1, d2, i0, i1, i2, n, n_bb, n_c, n_cb, a_w, c, z, f_l_4, f_l, constant, exponent] =
+            f;
+        DependentParameters {
+            d_rgb: [d0, d1, d2],
+            d_rgb_inv: [i0, i1, i2],
+            n,
+            n_bb,
+            n_c,
+            n_cb,
+            a_w,
+            c,
+            z,
+            f_l_4,
+            adapt: Adapt { f_l },
+            unadapt: Unadapt { constant, exponent },
+        }
+    }
+}
+
 #[derive(Clone, Copy)]
 struct Adapt<T> {
     f_l: T,
